@@ -171,17 +171,23 @@ class Worker:
 class Pool:
     """n workers per version; map tasks over them in parallel."""
 
-    def __init__(self, versions, per_version: int | None = None, extra_env=None, hashseeds=False):
-        """hashseeds: worker k of every version runs with PYTHONHASHSEED=k (default: all with 0)"""
+    def __init__(self, versions, per_version: int | None = None, extra_env=None, hashseeds=False, optimized_last=True):
+        """hashseeds: worker k of every version runs with PYTHONHASHSEED=k (default: all with 0);
+        optimized_last: the last worker of every version (if there are at least two) runs with PYTHONOPTIMIZE=1
+        (`python -O`: assert statements are stripped from the library), so a share of every check's cases sees the
+        library in that mode"""
         self.versions = list(versions)
         if per_version is None:
             per_version = max(1, NCPU // max(1, len(self.versions)))
         self.workers: dict[str, list[Worker]] = {}
 
         def env_of(k):
-            if not hashseeds:
-                return extra_env
-            return dict(extra_env or {}, PYTHONHASHSEED=str(k))
+            env = dict(extra_env or {})
+            if hashseeds:
+                env["PYTHONHASHSEED"] = str(k)
+            if optimized_last and per_version >= 2 and k == per_version - 1:
+                env["PYTHONOPTIMIZE"] = "1"
+            return env or None
 
         with ThreadPoolExecutor(max_workers=32) as ex:
             futs = {
